@@ -360,6 +360,8 @@ def mk_cmp(pyop: str, a, b):
     if pyop == 'notin':
         return mk_not(mk_cmp('in', a, b))
     op = {'<': 'lt', '<=': 'le', '==': 'eq', '!=': 'ne', 'is': 'is', 'in': 'in'}[pyop]
+    if op == 'is' and a == NONE and b != NONE:
+        a, b = b, a                 # `None is x` is `x is None`
     # a value chosen on different paths compared with a constant: the comparison of each alternative on its path
     if tag(a) == 'phi' and is_const(b) and len(a[1]) <= 8 and has_const_alternative(a):
         return mk_or([mk_and([g, mk_cmp(pyop, v, b)]) for g, v in a[1]])
